@@ -261,11 +261,26 @@ def concretize(st, v, want=None):
     if st.spec:
         raise Undecided('spec applies a typed operation to a union value; narrow it with isinstance/is None first')
     for a in alts[:-1]:
-        if st.branch(T.tester(a, v.z)):
+        if st.branch(typed_tester(st, a, v.z)):
             return unboxed(st, v, a)
     a = alts[-1]
-    st.assume(T.tester(a, v.z))
+    st.assume(typed_tester(st, a, v.z))
     return unboxed(st, v, a)
+
+
+def typed_tester(st, ty, z):
+    """The PyVal z holds alternative ty -- for object alternatives including the dynamic class, so that two
+    object-valued alternatives (Set[..] | List[..], Reply | List[Reply]) are told apart."""
+    from .core import TYPEOF
+    c = T.tester(ty, z)
+    if ty.is_reflike and ty.kind != 'ref':
+        tg = TYPEOF(T.PyVal.o_v(z)) == R.CLASSES[ty.kind].tag
+        if ty.kind == 'list':
+            tg = z3.Or(tg, TYPEOF(T.PyVal.o_v(z)) == R.CLASSES['tuple'].tag)
+        c = z3.And(c, tg)
+    if ty.kind == 'ref' and ty.name in R.CLASSES and ty.name != 'object':
+        c = z3.And(c, st.isinstance_term(T.PyVal.o_v(z), ty.name))
+    return c
 
 
 def unboxed(st, v, a):
